@@ -698,6 +698,10 @@ func (adapter *Adapter) watchAdapter(
 
 				return msg, nil
 			}
+
+			// the watch had been re-established, so the previous outage was over: the (arbitrarily long) wait
+			// for this message does not count, and this failure starts a new outage with its own retry budget
+			backoff.Reset()
 		}
 	}
 
